@@ -22,8 +22,7 @@ LEVEL = 'other'
 EXPLANATION = __doc__
 ASSUMPTIONS = ['std::env::var_os returns the current value of exactly the named variable',
                'the supports-color crate only influences whether colours are printed']
-FLOORS = {'W.who-may-read': 5, 'P.name-provenance': 3, 'F.flag-precedence': 3, 'A.argument-precedence': 4,
-          'J.single-conversion': 2, 'M.both-absent': 4}
+FLOORS = {'W.who-may-read': 6, 'P.name-provenance': 3, 'F.flag-precedence': 3, 'A.argument-precedence': 3, 'J.single-conversion': 3, 'M.both-absent': 4}
 
 ENV_TABLE = {
     # (function, env fn) -> reason
